@@ -81,8 +81,8 @@ CHECKS["C14"] = dict(engine="lzsim-xcfg", category="exploration", design_ref="DE
    note="x86_64 little-endian host only (AVX2/SSE4.1 as detected); aarch64 assembly, NEON and big-endian branches are not executed.")
 
 st("C15", "exploration", "deterministic simulation workloads under memory monitors: the simulator's allocator puts every library allocation >= 4 KiB directly in front of an inaccessible page (a stray access - also one made by inline assembly - kills the worker and is attributed to the case), hook H5 shadow assertions, a second pass with an unoptimised build; thorough tier adds an AddressSanitizer build and tiny cases under Miri",
-   "Workloads that reach every unsafe block of the optimization feature (match extension at both window ends, input that fills the window buffer exactly, window moves, oob.movewin: several window moves per run with dictionary sizes for which the 64-byte aligned move has no slack and data whose matches sit at the largest distance the dictionary allows, finishing with < 8 bytes, SIMD renormalisation after the 31-bit position wrap, the assembly direct-bit reader at every position in the last bytes of its buffer and at the end of chunks cut to many sizes, damaged chunks) run under guard pages and with shadow assertions that restate each block's precondition immediately before it. A part of every scenario runs again in an unoptimised (cargo dev profile) build, because the optimiser may legally move a load below the bounds test the source performs after it, so that an over-read present in the source does not exist in the optimised binary. thorough: the scaled-down plan again under ASan (worker death = finding) and 64 tiny encode/decode cases under Miri.",
-   "Known miss: seeded change S-C15-5 (one byte of history less in fast mode) needs a literal-only run up to an exact offset with planted matches and is not reached by the seeded search (DESIGN 10.6). A guard page catches accesses behind the END of an allocation (up to alignment slack) of at least 4 KiB, not in front of it and not use after free (freed mappings are recycled). Shadow assertions are hand-written restatements of the SAFETY comments; ASan cannot see asm! loads, Miri cannot execute asm!; x86_64 only.")
+   "Workloads that reach every unsafe block of the optimization feature (match extension at both window ends, input that fills the window buffer exactly, window moves, oob.stopmove: the encoder runs out of input with its look-ahead outstanding exactly where the window moves next, rep0 equal to the dictionary size; oob.movewin: several window moves per run with dictionary sizes for which the 64-byte aligned move has no slack and data whose matches sit at the largest distance the dictionary allows, finishing with < 8 bytes, SIMD renormalisation after the 31-bit position wrap, the assembly direct-bit reader at every position in the last bytes of its buffer and at the end of chunks cut to many sizes, damaged chunks) run under guard pages and with shadow assertions that restate each block's precondition immediately before it. A part of every scenario runs again in an unoptimised (cargo dev profile) build, because the optimiser may legally move a load below the bounds test the source performs after it, so that an over-read present in the source does not exist in the optimised binary. thorough: the scaled-down plan again under ASan (worker death = finding) and 64 tiny encode/decode cases under Miri.",
+   "oob.stopmove is a directed construction (match-free data with planted matches at the stop position of a full window), added because the seeded search of oob.movewin did not reach the state seeded change S-C15-5 needs (DESIGN 10.6). A guard page catches accesses behind the END of an allocation (up to alignment slack) of at least 4 KiB, not in front of it and not use after free (freed mappings are recycled). Shadow assertions are hand-written restatements of the SAFETY comments; ASan cannot see asm! loads, Miri cannot execute asm!; x86_64 only.")
 
 NOT_YET = {}
 for i in range(1, 20):
